@@ -46,6 +46,10 @@ def c16_suites(tier):
     return [system.CompositionSuite(), gens.GenHistorySuite()]
 
 
+def c09_suites(tier):
+    return [system.WaitSuite(), system.RhythmSessionSuite()]
+
+
 PROPS = {
     "C01": {"suites": c01_suites},
     "C02": {"suites": c02_suites},
@@ -55,6 +59,7 @@ PROPS = {
     "C06": {"suites": c06_suites},
     "C07": {"suites": c07_suites},
     "C08": {"suites": c08_suites},
+    "C09": {"suites": c09_suites},
     "C16": {"suites": c16_suites},
     "C17": {"suites": c17_suites},
     "C20": {"suites": c20_suites},
